@@ -388,7 +388,7 @@ def _shallow_sig(v, _depth=0):
     return None
 
 
-_INTERNAL_KEY = re.compile(r'__rx@\d+_\d+$|__(caller|gen|yields|ysnap|fuse|iter|list|exitstacks|yf|x\d+|k_\w+|base|idx|val|recv|fn|obj|f)@\d+$|__handling$|__exc$')
+_INTERNAL_KEY = re.compile(r'__rx@\d+_\d+$|__(ia\d+|ik_\w+|caller|gen|yields|ysnap|fuse|iter|list|exitstacks|yf|x\d+|k_\w+|base|idx|val|recv|fn|obj|f)@\d+$|__handling$|__exc$')
 _FRAME_LOCAL = re.compile(r'__rx@\d+_\d+$|__(iter|list|exitstacks|yf)@\d+$|__handling$')
 
 
@@ -3942,6 +3942,27 @@ class Interp:
         if fname == 'isinstance' and 'isinstance' not in s.env and len(args) == 2 and _plain(args[0]) \
            and (isinstance(args[1], type) or (isinstance(args[1], tuple) and args[1] and all(isinstance(t, type) for t in args[1]))):
             return isinstance(args[0], args[1])
+        if self.heap and fname in ('getattr', 'hasattr', 'setattr') and fname not in s.env and len(args) >= 2 and isinstance(args[0], M.ClassInfo) \
+           and isinstance(args[1], str) and args[1].isidentifier() and self.model is not None:
+            # the attribute of a class object, named by a string
+            k_, nm_ = args[0], args[1]
+            if fname == 'setattr' and len(args) == 3:
+                s.env['__cls:%s.%s' % (k_.fullname, nm_)] = args[2]
+                return None
+            if fname != 'setattr':
+                dyn = self._dynamic_class_attr(k_, nm_, s)
+                owner_ = self.model.find_attr_class(k_, nm_)
+                if fname == 'hasattr':
+                    return dyn is not None or owner_ is not None
+                if dyn is not None:
+                    return dyn[0]
+                if owner_ is not None:
+                    return self.getattr(k_, nm_, n, s)
+                if len(args) == 3:
+                    return args[2]
+                if self.precise_exc:
+                    s.env['__exc'] = 'AttributeError'
+                return TOP
         if self.heap and fname in ('setattr', 'getattr', 'delattr', 'hasattr') and fname not in s.env and len(args) >= 2 \
            and isinstance(args[0], (Obj, TextObj)) and isinstance(args[1], str):
             o, nm = args[0], args[1]
@@ -4113,12 +4134,13 @@ class Interp:
                     return args[2]
             except Exception:
                 return TOP
-            if isinstance(args[1], Sym) and isinstance(args[1].attrs.get('node'), ast.FunctionDef):
+            if (isinstance(args[1], Sym) and (isinstance(args[1].attrs.get('node'), ast.FunctionDef) or args[1].label.startswith(('method:', 'boundmethod:')))) \
+               or isinstance(args[1], (M.FunctionInfo, Partial, OpCall)):
                 class _Abort(Exception):
                     pass
 
                 def cb(mo):
-                    r = self.call_value(args[1], [mo], s, n.lineno)
+                    r = self.apply_value(args[1], [mo], {}, s, n.lineno)
                     if r is None or not isinstance(r[0], str) or isinstance(r[0], M._StringLetters):
                         raise _Abort()
                     return str(r[0])
@@ -4173,12 +4195,18 @@ class Interp:
                                                                          for k in self.model.mro(fval)):
                     o.attrs['__dict'] = {}
                 init = self.model.find_method(fval, '__init__') if self.model is not None else None
-                if init is not None and self.run_init and self.inline_depth > 0 and len(self._inline_stack) < self.inline_depth:
+                # constructors are interpreted on request (run_init) and, in any case, for private helper classes (`_Name`): the small
+                # value / state holders that a function is split into are nothing without their __init__
+                auto_init = fval.name.startswith('_') and not fval.name.startswith('__') and self.precise_exc
+                if init is not None and (self.run_init or auto_init) and self.inline_depth > 0 and len(self._inline_stack) < self.inline_depth:
                     key = '__obj@%d' % len(self._inline_stack)
                     s.env[key] = o
+                    # the arguments were evaluated above: the constructor call uses those values, not the expressions once more
+                    tmp = self._with_temps(dict({'__ia%d' % i: a for i, a in enumerate(args)}, **{'__ik_' + k: v for k, v in kwargs.items()}), s)
                     call = ast.Call(func=ast.Attribute(value=ast.Name(id=key, ctx=ast.Load()), attr='__init__', ctx=ast.Load()),
-                                    args=list(n.args), keywords=list(n.keywords))
-                    for x in (call, call.func, call.func.value):
+                                    args=[ast.Name(id=tmp['__ia%d' % i], ctx=ast.Load()) for i in range(len(args))],
+                                    keywords=[ast.keyword(arg=k, value=ast.Name(id=tmp['__ik_' + k], ctx=ast.Load())) for k in kwargs])
+                    for x in ast.walk(call):
                         ast.copy_location(x, n)
                     self._force_callee = init
                     try:
@@ -4199,6 +4227,8 @@ class Interp:
                         self.imprecise.append('%s.__init__ could not be interpreted (line %s)' % (fval.name, n.lineno))
                     self._force_callee = None
                     s.env.pop(key, None)
+                    for nm_ in tmp.values():
+                        s.env.pop(nm_, None)
                 elif init is None and isinstance(o, Obj) and self.model is not None \
                         and all(isinstance(k, M.ClassInfo) or getattr(k, 'name', '') in ('object', 'builtins.object') for k in self.model.mro(fval)):
                     o.attrs['__closed'] = True        # no __init__ anywhere in a fully known MRO: a new object has no instance attributes
